@@ -1,10 +1,11 @@
 #!/bin/bash
+ROOT="$(cd "$(dirname "$(readlink -f "$0")")" && pwd)"; export MC_VERIF_ROOT="$ROOT"
 # Build the harness against a scratch copy of /repo in which the two target_pointer_width="16"
 # predicates of src/graphics.rs are flipped, so the real 16-bit take_u32/nth_u32 bodies are
 # compiled on this host.  The copy lives in /tmp and is removed by ./check.
 set -e
 src=/tmp/mipidsi-verif-ptr16-src
-tdir=/verif/target/ptr16
+tdir="$ROOT/target/ptr16"
 [ -n "${MIPIDSI_SRC:-}" ] && { src=/tmp/mipidsi-verif-ptr16-src-alt; tdir="${MC_TARGET_BASE:-/tmp/mc-target}/ptr16"; }
 rm -rf "$src"; mkdir -p "$src"
 # copy the working tree (tracked + modified files), preserving mtimes so cargo can reuse its cache
@@ -21,7 +22,7 @@ s=s.replace(a,'#[cfg(any())]').replace(b,'#[cfg(all())]')
 import os
 st=os.stat(p); open(p,'w').write(s); os.utime(p,(st.st_atime,st.st_mtime))
 PY
-cd /verif/mc
+cd "$ROOT/mc"
 export CARGO_NET_OFFLINE=true RUSTFLAGS="--cfg mipidsi_verif"
 mkdir -p "$tdir"; CARGO_TARGET_DIR=$tdir cargo build --release --quiet --config "patch.crates-io.mipidsi.path=\"$src\"" >"$tdir.log" 2>&1 || { tail -40 "$tdir.log" >&2; echo "MACHINERY: cargo build failed" >&2; exit 2; }
 test -x $tdir/release/mc || { echo "MACHINERY: build of variant ptr16 failed" >&2; exit 2; }
